@@ -45,7 +45,7 @@ func genExpScenario(rt *rapid.T) expScenario {
 	for i := 0; i < n; i++ {
 		at += rapid.IntRange(0, 6).Draw(rt, "gap") * 100
 		a := expAction{AtMs: at, Key: pick(rt, keys, "key"), C: rapid.IntRange(0, sc.Colls-1).Draw(rt, "c")}
-		a.K = pick(rt, []string{"Add", "ReAdd", "Set", "SetPreserve", "WriteCas", "Touch", "Touch", "GetAndTouchRaw", "GetAndTouchRaw", "WriteWithXattrs", "Update", "UpdateExp", "UpdateXattrs", "WriteUpdateX", "SetWithMeta", "Delete", "DeleteWithXattrs", "Remove", "Incr", "Reopen", "Recreate"}, "k")
+		a.K = pick(rt, []string{"Add", "ReAdd", "Set", "SetPreserve", "WriteCas", "Touch", "Touch", "GetAndTouchRaw", "GetAndTouchRaw", "WriteWithXattrs", "Update", "UpdateExp", "UpdateXattrs", "WriteUpdateX", "WriteUpdateXRetry", "SetWithMeta", "Delete", "DeleteWithXattrs", "Remove", "Incr", "Reopen", "Recreate"}, "k")
 		a.TTL = pick(rt, []int{1, 1, 2, 2, 3, 4, 0, 60, 3600}, "ttl")
 		a.Abs = rapid.Bool().Draw(rt, "abs")
 		if a.K == "Reopen" && !sc.Disk {
@@ -239,6 +239,40 @@ func runExpScenario(sc expScenario, windowSec int) (res expResult) {
 			})
 			if err == nil {
 				m.live, m.deadline, wrote = true, newDeadline(), true
+			}
+		case "WriteUpdateXRetry":
+			// a WriteUpdateWithXattrs that has to go round twice (stale `previous`): its first callback
+			// invocation asks for the drawn expiry, the applied one for none. Nothing of the abandoned
+			// attempt may stick: afterwards the expiry in force is "none" or the one there was before
+			st, _ := Observe(ds, a.Key, nil)
+			if !st.HasBody() {
+				err = fmt.Errorf("skip: not live")
+				break
+			}
+			prevDoc := &sgbucket.BucketDocument{Body: st.Body, Cas: st.Cas - 1, Xattrs: map[string][]byte{}}
+			calls := 0
+			e := exp
+			_, err = ds.WriteUpdateWithXattrs(ctx, a.Key, []string{"_sync"}, 0, prevDoc, nil, func(doc []byte, xattrs map[string][]byte, cas uint64) (sgbucket.UpdatedDoc, error) {
+				calls++
+				u := sgbucket.UpdatedDoc{Doc: body, Xattrs: map[string][]byte{"_sync": []byte(`{"seq":3}`)}}
+				if calls == 1 {
+					u.Expiry = &e
+				}
+				return u, nil
+			})
+			if err == nil {
+				got, _ := ds.GetExpiry(ctx, a.Key)
+				switch {
+				case got == 0:
+					m.deadline = 0
+				case got == m.deadline:
+				case calls >= 2 && a.TTL > 0:
+					bad("exp.value", "a retried WriteUpdateWithXattrs whose applied attempt asked for no expiry left expiry %d on %s/%q (before the call: %d): the expiry of the abandoned attempt", got, w.Cfg.Colls[a.C], a.Key, m.deadline)
+					m.deadline = got
+				default:
+					m.deadline = got
+				}
+				m.live, wrote = true, false
 			}
 		case "SetWithMeta":
 			// (absolute expiries only)
